@@ -8,6 +8,7 @@ import (
 	"errors"
 	"fmt"
 	"io"
+	"math"
 	"path/filepath"
 	"slices"
 	"strings"
@@ -167,6 +168,11 @@ func (e *EncryptedISO) ReadAt(b []byte, off int64) (int, error) {
 	}
 	if off < 0 {
 		return 0, afero.ErrOutOfRange
+	}
+
+	// sector numbers are 32-bit, so nothing can be stored further
+	if maxEnd := sizeSectors(math.MaxInt32).bytes(); sizeBytes(off) > maxEnd-sizeBytes(len(b)) {
+		return 0, io.EOF
 	}
 
 	start, end := sizeBytes(off), sizeBytes(off)+sizeBytes(len(b))
